@@ -231,15 +231,24 @@ def check(pid, tier, replay_only=None):
                     if not mine:
                         notes.append('kani %s: failed checks belong to other properties: %s' % (full, [c['description'] for c in x['failed_checks']]))
                         continue
-                    vals, cout = kani_run.concrete_values(scratch, full)
-                    if vals is None:
+                    cands, cout = kani_run.concrete_values(scratch, full)
+                    if cands is None:
                         undecided.append('kani %s failed (%s) but no concrete values were produced' % (full, mine[0]['description']))
                         continue
-                    rep, rout = kani_run.native_replay(scratch, full, vals)
-                    x['replay'] = {'values': vals, 'reproduced': rep}
-                    if rep:
+                    # try the counterexamples of this property's failed checks first
+                    mine_desc = set(c['description'] for c in mine)
+                    cands.sort(key=lambda c: 0 if c['description'] in mine_desc else 1)
+                    reproduced = None
+                    for cand in cands[:4]:
+                        rep, rout = kani_run.native_replay(scratch, full, cand['values'])
+                        if rep:
+                            reproduced = (cand, rout)
+                            break
+                    x['replay'] = {'candidates': len(cands), 'reproduced': bool(reproduced)}
+                    if reproduced:
+                        cand, rout = reproduced
                         pm = re.search(r"panicked at ([^\n]*)\n([^\n]*)", rout)
-                        kani_viol.append({'harness': full, 'file': h[0], 'checks': mine, 'values': vals,
+                        kani_viol.append({'harness': full, 'file': h[0], 'checks': mine, 'values': cand['values'],
                                           'native_panic': (pm.group(1) + ' ' + pm.group(2)) if pm else rout[-400:], 'bound': h[2]})
                     else:
                         undecided.append('kani %s: counterexample for %r did not reproduce natively (not reported as failing input)' % (full, mine[0]['description']))
